@@ -129,6 +129,25 @@ where
             return;
         }
         obs(log, &s);
+        if rng.chance(1, 6) {
+            // go on with a copy (clone / clone_from into a used object)
+            let how = rng.below(2);
+            log.call("copy", json!({"how": how}), || {
+                if how == 0 {
+                    let c = s.clone();
+                    s = c;
+                } else {
+                    let mut other: SmallInts<S, B> = SmallInts::new();
+                    other.push(num_traits::cast::<i64, B>(bmax).unwrap());
+                    other.push(num_traits::cast::<i64, B>(1).unwrap());
+                    other.clone_from(&s);
+                    s = other;
+                }
+                json!({})
+            });
+            log.oblige("smallints_copied_mid_history");
+            obs(log, &s);
+        }
     }
 }
 
